@@ -752,7 +752,9 @@ def describe(case: Case):
                 {k: (v if k != "ins" else [None if x is None else list(x) for x in v]) for k, v in nd.items() if k in ("kind", "ident", "ins", "outs", "attrs", "vnames")}
                 for nd in case.refl.nodes],
             "graphs": None if case.refl is None else [[None if a is None else [list(x) for x in a], [(k, list(v)) for k, v in r]] for a, r in case.refl.graphs[1:]],
-            "impl": case.impl, "model": case.model}
+            "impl": case.impl, "model": case.model,
+            "coq": None if case.coq is None else {"prog": case.coq[0], "request": case.coq[1],
+                                                  "how": "From Spox Require Import Base IR Build Show Validate.  Eval vm_compute in show (build_checked <prog> <request>)."}}
 
 
 # ------------------------------------------------------------------------------------------------ extended generator
